@@ -1,0 +1,41 @@
+// Copyright (c) Tailscale Inc & AUTHORS
+// SPDX-License-Identifier: BSD-3-Clause
+
+//go:build verif
+
+package setec
+
+// VerifSecret is a copy of one entry of a Store's active set.
+type VerifSecret struct {
+	Nil        bool // the entry exists but holds no value (yet)
+	Version    uint32
+	Value      string
+	LastAccess int64
+	Declared   bool
+	HasHandle  bool
+	Watchers   int
+}
+
+// VerifDump returns a copy of the store's active set without taking the store
+// lock. It exists only for verification harnesses (build tag verif), which
+// call it when no other goroutine is inside the store.
+func (s *Store) VerifDump() map[string]VerifSecret {
+	out := make(map[string]VerifSecret, len(s.active.m))
+	for name, cs := range s.active.m {
+		var v VerifSecret
+		if cs == nil || cs.Secret == nil {
+			v.Nil = true
+		} else {
+			v.Version = uint32(cs.Secret.Version)
+			v.Value = string(cs.Secret.Value)
+		}
+		if cs != nil {
+			v.LastAccess = cs.LastAccess
+			v.Declared = cs.Declared
+		}
+		_, v.HasHandle = s.active.f[name]
+		v.Watchers = len(s.active.w[name])
+		out[name] = v
+	}
+	return out
+}
